@@ -11,6 +11,7 @@ import (
 	"io"
 	"os"
 	"path/filepath"
+	"regexp"
 	"runtime"
 	"sort"
 	"strconv"
@@ -125,11 +126,54 @@ func (c statCase) flags(format string) []string {
 
 // runStat runs the real benchstat entry point in-process.
 //
-// An invocation on these inputs takes milliseconds; one that has not returned
-// after runStatBudget (with the race detector on and the machine busy) is
-// reported as an error "did not return": for benchstat that is an observable
-// outcome like any other (no output), not a timing measurement.
-const runStatBudget = 60 * time.Second
+// An invocation on these inputs takes milliseconds. One that has not returned
+// after runStatPatience is examined: if every goroutine working for it is
+// parked (channel operation, semaphore, WaitGroup, mutex, select) and the set
+// of their stacks does not change over three looks two seconds apart, nothing
+// can wake it up any more and it is reported as an error "blocked for good" —
+// for benchstat that is an observable outcome like any other (no output), not
+// a timing measurement. While some goroutine of it is still running or
+// runnable (a slow, loaded machine) the wait goes on, up to runStatCap.
+const (
+	runStatPatience = 20 * time.Second
+	runStatCap      = 20 * time.Minute
+)
+
+var runStatParked = regexp.MustCompile(`^goroutine \d+ \[(chan receive|chan send|select|semacquire|sync\.WaitGroup\.Wait|sync\.Mutex\.Lock|sync\.RWMutex\.R?Lock|sync\.Cond\.Wait)(, \d+ minutes)?\]:$`)
+
+// runStatGoroutines returns the stacks (state line first) of the goroutines
+// that have a frame of the benchstat invocation on them, with the waiting time
+// removed from the state line, and whether all of them are parked.
+func runStatGoroutines() (stacks []string, allParked bool) {
+	buf := make([]byte, 1<<20)
+	for {
+		n := runtime.Stack(buf, true)
+		if n < len(buf) {
+			buf = buf[:n]
+			break
+		}
+		buf = make([]byte, 2*len(buf))
+	}
+	allParked = true
+	for _, g := range strings.Split(string(buf), "\n\n") {
+		if !strings.Contains(g, "main.benchstat(") && !strings.Contains(g, "/benchtab.") && !strings.Contains(g, "/benchproc.") && !strings.Contains(g, "/benchmath.") && !strings.Contains(g, "/benchfmt.") {
+			continue
+		}
+		if strings.Contains(g, "main.runStatGoroutines(") {
+			continue
+		}
+		head, _, _ := strings.Cut(g, "\n")
+		if !runStatParked.MatchString(head) {
+			allParked = false
+		}
+		if k := strings.Index(head, ", "); k >= 0 && strings.HasSuffix(head, " minutes]:") {
+			g = head[:k] + "]:" + g[len(head):]
+		}
+		stacks = append(stacks, g)
+	}
+	sort.Strings(stacks)
+	return stacks, allParked && len(stacks) > 0
+}
 
 func runStat(args []string) (stdout, stderr string, err error) {
 	type res struct {
@@ -142,11 +186,31 @@ func runStat(args []string) (stdout, stderr string, err error) {
 		err := benchstat(&o, &e, args)
 		done <- res{o.String(), e.String(), err}
 	}()
-	select {
-	case r := <-done:
-		return r.o, r.e, r.err
-	case <-time.After(runStatBudget):
-		return "", "", fmt.Errorf("benchstat did not return within %v (GOMAXPROCS=%d, %d goroutines alive), args %q", runStatBudget, runtime.GOMAXPROCS(0), runtime.NumGoroutine(), args)
+	start := time.Now()
+	wait := runStatPatience
+	stable, last := 0, ""
+	for {
+		select {
+		case r := <-done:
+			return r.o, r.e, r.err
+		case <-time.After(wait):
+		}
+		wait = 2 * time.Second
+		stacks, parked := runStatGoroutines()
+		cur := strings.Join(stacks, "\n\n")
+		if parked && cur == last {
+			stable++
+		} else {
+			stable = 0
+		}
+		last = cur
+		if stable >= 2 {
+			return "", "", fmt.Errorf("benchstat is blocked for good after %v (GOMAXPROCS=%d): all %d goroutines of the invocation are parked and nothing changes; first of them:\n%s\nargs %q",
+				time.Since(start).Round(time.Second), runtime.GOMAXPROCS(0), len(stacks), clipS(stacks[0]), args)
+		}
+		if time.Since(start) > runStatCap {
+			return "", "", fmt.Errorf("benchstat did not return within %v (GOMAXPROCS=%d, %d goroutines alive), args %q", runStatCap, runtime.GOMAXPROCS(0), runtime.NumGoroutine(), args)
+		}
 	}
 }
 
